@@ -1,10 +1,12 @@
 package props
 
 import (
+	"bytes"
 	"errors"
 	"fmt"
 	"os"
 	"path/filepath"
+	"sort"
 
 	"github.com/thomasjungblut/go-sstables/skiplist"
 	"github.com/thomasjungblut/go-sstables/sstables"
@@ -45,6 +47,19 @@ func runC09(c *fw.Case) {
 	if len(keys[0]) == 0 {
 		c.Obs("tables_with_the_empty_key", 1)
 	}
+	// one table in four has long, highly compressible keys (index records much shorter on disk than decoded) and a
+	// compressed index
+	idxComp := 0
+	if r.Intn(4) == 0 || ((c.Idx/4)%4 == 1 && r.Intn(2) == 0) { // (more often under the disk index loader, which reads the index lazily)
+		idxComp = 1 + r.Intn(3)
+		for i := range keys {
+			if len(keys[i]) > 0 && i%2 == 0 {
+				keys[i] = append(append([]byte{}, keys[i]...), bytes.Repeat([]byte("abcd"), 60+r.Intn(60))...)
+			}
+		}
+		sort.Slice(keys, func(i, j int) bool { return bytes.Compare(keys[i], keys[j]) < 0 })
+		c.Obs("tables_with_long_keys_and_a_compressed_index", 1)
+	}
 	withEmpties := r.Intn(3) == 0
 	var kvs []kv
 	nonEmpty := 0
@@ -66,14 +81,14 @@ func runC09(c *fw.Case) {
 		kvs = append(kvs, kv{k, v})
 		c.HashAdd(k, v, v == nil)
 	}
-	c.HashAdd(dataComp)
+	c.HashAdd(dataComp, idxComp)
 	if withEmpties {
 		c.Obs("tables_with_empty_or_nil_value", 1)
 	}
 	tdir := filepath.Join(c.Dir, "t")
 	_ = os.MkdirAll(tdir, 0755)
 	w, err := sstables.NewSSTableStreamWriter(sstables.WriteBasePath(tdir), sstables.WithKeyComparator(skiplist.BytesComparator{}),
-		sstables.DataCompressionType(dataComp), sstables.WriteBufferSizeBytes(4096))
+		sstables.DataCompressionType(dataComp), sstables.IndexCompressionType(idxComp), sstables.WriteBufferSizeBytes(4096))
 	if err == nil {
 		err = w.Open()
 	}
